@@ -91,11 +91,13 @@ def Recv.creditConsumedBy (r : Recv) (offset received maxData : Nat) : Option (E
   | some sum =>
     if Gen.creditOverConn sum maxData then some (.error (.flowControl "")) else some (.ok newBytes)
 
-/-- the final-size test of `ingest`: data past the final size, or a FIN at a different size -/
+/-- the final-size tests of `ingest`: data past the final size, a FIN at a different size, or a FIN
+    below the data already received -/
 def Recv.finalSizeErr (r : Recv) (end_ : Nat) (fin : Bool) : Bool :=
-  match r.finalOffset with
-  | some fo => decide (end_ > fo) || (fin && decide (end_ ≠ fo))
-  | none => false
+  (match r.finalOffset with
+   | some fo => decide (end_ > fo) || (fin && decide (end_ ≠ fo))
+   | none => false) ||
+  (Gen.ingestFinBelowEndIsError && fin && decide (end_ < r.end_))
 
 /-- `ingest` after the size checks: flow-control credit, then the state update -/
 def Recv.ingestTail (r : Recv) (offset len : Nat) (fin : Bool) (received maxData : Nat) :
